@@ -49,8 +49,10 @@ Good(out) == [ok |-> TRUE, out |-> out]
 \* ---- decoding (part 1) ----------------------------------------------------
 Sub(b, from, n) == SubSeq(b, from, from + n - 1)                \* n elements of b starting at 1-based index `from`
 
-\* TLC integers are 32 bit: an 8-byte field is decoded only when its magnitude is below 2^24 (files judged byte by
-\* byte are far shorter); anything else is reported as outside the modelled range, never guessed.
+\* TLC integers are 32 bit.  Everything judged byte by byte is shorter than W = 2^24 bytes, so sizes are small
+\* integers; a seek, however, may be any 63-bit magnitude (a two's-complement -2 read as sign-magnitude is
+\* 2^63 - 2), and oldpos is therefore kept exactly, as a three-limb integer (see "64-bit positions").
+W == 16777216
 Small8(b, at)  == b[at + 3] = 0 /\ b[at + 4] = 0 /\ b[at + 5] = 0 /\ b[at + 6] = 0 /\ (b[at + 7] % 128) = 0
 Mag8(b, at)    == b[at] + 256 * b[at + 1] + 65536 * b[at + 2]
 Offtin(b, at)  == IF b[at + 7] >= 128 THEN 0 - Mag8(b, at) ELSE Mag8(b, at)     \* sign-magnitude, little-endian
@@ -67,42 +69,59 @@ CtrlSmall(cb)   == \A k \in 0..((Len(cb) \div 8) - 1) : Small8(cb, 8 * k + 1)
 CtrlOf(cb)      == [k \in 1..(Len(cb) \div 24) |->
                       <<Offtin(cb, 24 * (k - 1) + 1), Offtin(cb, 24 * (k - 1) + 9), Offtin(cb, 24 * (k - 1) + 17)>>]
 
-Abs(v) == IF v < 0 THEN 0 - v ELSE v
 CMin(a, b) == IF a < b THEN a ELSE b
-\* positions stay inside TLC's integers: every value below 2^24 and the total travel of oldpos below 2^29
-Travel(ctrl) == FoldLeft(LAMBDA acc, c : IF acc >= 536870912 THEN acc ELSE acc + Abs(c[1]) + Abs(c[3]), 0, ctrl)
-Decidable(ctrl) ==
-  /\ \A k \in 1..Len(ctrl) : Abs(ctrl[k][1]) < 16777216 /\ Abs(ctrl[k][2]) < 16777216 /\ Abs(ctrl[k][3]) < 16777216
-  /\ Travel(ctrl) < 536870912
+
+\* ---- 64-bit positions ------------------------------------------------------
+\* <<a, b, c>> stands for a * 2^48 + b * 2^24 + c with 0 <= b, c < 2^24; the sign lives in a.
+\* (\div rounds towards minus infinity and % is never negative, so Norm also normalises negative limbs.)
+Norm(a, b, c) == LET b0 == b + (c \div W) IN <<a + (b0 \div W), b0 % W, c % W>>
+BigOf(v)      == Norm(0, 0, v)
+BigAdd(p, q)  == Norm(p[1] + q[1], p[2] + q[2], p[3] + q[3])
+BigNeg(p)     == Norm(0 - p[1], 0 - p[2], 0 - p[3])
+\* the 8-byte sign-magnitude field at `at`, exactly
+Offtin64(b, at) ==
+  LET m == <<b[at + 6] + 256 * (b[at + 7] % 128), b[at + 3] + 256 * b[at + 4] + 65536 * b[at + 5], Mag8(b, at)>>
+  IN IF b[at + 7] >= 128 THEN BigNeg(m) ELSE m
+\* A position as a small integer for reading a block of fewer than 2^24 bytes from an old file of fewer than 2^24
+\* bytes: exact in [-2^24, 2^24); any position outside that interval makes every such read fall outside the old
+\* file, and so does the stand-in 2^25.
+Near(p) == IF p[1] = 0 /\ p[2] = 0 THEN p[3] ELSE IF p[1] = 0 - 1 /\ p[2] = W - 1 THEN p[3] - W ELSE 2 * W
+\* A size field as a small integer: exact below 2^24; a larger one exceeds every block judged here (stand-in 2^30),
+\* a negative one is corrupt whatever its magnitude (stand-in -1).
+Size8(b, at) == IF Small8(b, at) THEN Offtin(b, at) ELSE IF b[at + 7] >= 128 THEN 0 - 1 ELSE 1073741824
+\* control triples <<x, y, zBig>> from raw bytes - total: every 24-byte triple has a meaning
+CtrlBigOf(cb) == [k \in 1..(Len(cb) \div 24) |->
+                    <<Size8(cb, 24 * (k - 1) + 1), Size8(cb, 24 * (k - 1) + 9), Offtin64(cb, 24 * (k - 1) + 17)>>]
+Lift(ctrl)    == [k \in 1..Len(ctrl) |-> <<ctrl[k][1], ctrl[k][2], BigOf(ctrl[k][3])>>]      \* small z -> big z
 
 \* ---- bspatch (part 1) -----------------------------------------------------
 \* A patch P = [ctrl |-> sequence of <<x, y, z>>, diff |-> bytes, extra |-> bytes, size |-> new_size]
 OldAt(old, p) == IF p >= 0 /\ p < Len(old) THEN old[p + 1] ELSE 0               \* p is 0-based and signed
 AddDiff(old, op, diff, dp, x) == [i \in 1..x |-> (OldAt(old, op + i - 1) + diff[dp + i]) % 256]
 
-\* running state: st in {"run", "ok", "err"}, out, op = oldpos, dp / ep = bytes consumed from diff / extra
-Start(P) == [st |-> IF P.size = 0 THEN "ok" ELSE "run", out |-> <<>>, op |-> 0, dp |-> 0, ep |-> 0]
+\* running state: st in {"run", "ok", "err"}, out, op = oldpos (big), dp / ep = bytes consumed from diff / extra
+Start(P) == [st |-> IF P.size = 0 THEN "ok" ELSE "run", out |-> <<>>, op |-> BigOf(0), dp |-> 0, ep |-> 0]
 
-Entry(old, P, s, c) ==
+Entry(old, P, s, c) ==                                       \* c = <<x, y, zBig>>
   LET x == c[1]
       y == c[2]
-      z == c[3]
   IN IF s.st # "run" THEN s                                  \* new_size reached: further triples are never read
-     ELSE IF x < 0 \/ y < 0 \/ Len(s.out) + x > P.size \/ s.dp + x > Len(P.diff) THEN [s EXCEPT !.st = "err"]
-     ELSE LET o1 == s.out \o AddDiff(old, s.op, P.diff, s.dp, x) IN
-          IF Len(o1) + y > P.size \/ s.ep + y > Len(P.extra) THEN [s EXCEPT !.st = "err"]
+     ELSE IF x < 0 \/ y < 0 \/ x > P.size - Len(s.out) \/ x > Len(P.diff) - s.dp THEN [s EXCEPT !.st = "err"]
+     ELSE LET o1 == s.out \o AddDiff(old, Near(s.op), P.diff, s.dp, x) IN
+          IF y > P.size - Len(o1) \/ y > Len(P.extra) - s.ep THEN [s EXCEPT !.st = "err"]
           ELSE LET o2 == o1 \o Sub(P.extra, s.ep + 1, y) IN
                [st |-> IF Len(o2) = P.size THEN "ok" ELSE "run",
-                out |-> o2, op |-> s.op + x + z, dp |-> s.dp + x, ep |-> s.ep + y]
+                out |-> o2, op |-> BigAdd(Norm(s.op[1], s.op[2], s.op[3] + x), c[3]), dp |-> s.dp + x, ep |-> s.ep + y]
 
-Apply(old, P) ==
+ApplyBig(old, P) ==                                          \* P.ctrl = triples <<x, y, zBig>>
   LET s == FoldLeft(LAMBDA st, c : Entry(old, P, st, c), Start(P), P.ctrl)
   IN IF s.st = "ok" THEN Good(s.out) ELSE Fail       \* "run" = the control block ended before new_size bytes were made
+Apply(old, P) == ApplyBig(old, [P EXCEPT !.ctrl = Lift(@)])  \* P.ctrl = triples <<x, y, z>> of small integers
 
 \* The same function on lengths only: does bspatch succeed, given the block lengths?
 LenEntry(dlen, elen, size, s, c) ==                  \* s = [st, np, dp, ep]: Entry without the bytes
   IF s.st # "run" THEN s
-  ELSE IF c[1] < 0 \/ c[2] < 0 \/ s.np + c[1] + c[2] > size \/ s.dp + c[1] > dlen \/ s.ep + c[2] > elen
+  ELSE IF c[1] < 0 \/ c[2] < 0 \/ c[1] > size - s.np \/ c[2] > size - s.np - c[1] \/ c[1] > dlen - s.dp \/ c[2] > elen - s.ep
        THEN [s EXCEPT !.st = "err"]
   ELSE [st |-> IF s.np + c[1] + c[2] = size THEN "ok" ELSE "run", np |-> s.np + c[1] + c[2],
         dp |-> s.dp + c[1], ep |-> s.ep + c[2]]
